@@ -379,6 +379,7 @@ def call_contract(st, c, args, kwargs, n=None, closure_env=None):
             continue
         if rq.strip() == 'in_timeout_scope()':
             st.prove('call[%s]@%d/pre#%d/scope' % (c.key, line, i), g, kind='scope', lineno=line)
+            prove_scope_governed(st, c, line)
         else:
             st.prove('call[%s]@%d/pre#%d' % (c.key, line, i), g, kind='pre', lineno=line)
     if c.pure:
@@ -1324,12 +1325,35 @@ def _strip(st, recv, args, kw):
 # ------------------------------------------------------------------ gevent.Timeout scopes (G4)
 def _timeout_enter(st, cm):
     st.ghost['$timeout_depth'] = st.ghost.get('$timeout_depth', 0) + 1
+    try:
+        sec = st.read_field(cm.z, 'Timeout', 'seconds')
+    except Undecided:
+        sec = None
+    st.ghost.setdefault('$timeout_stack', []).append(sec)
     return None
 
 
 def _timeout_exit(st, cm, tok, pr):
     st.ghost['$timeout_depth'] = st.ghost.get('$timeout_depth', 0) - 1
+    if st.ghost.get('$timeout_stack'):
+        st.ghost['$timeout_stack'].pop()
     return False
+
+
+def prove_scope_governed(st, c, line):
+    """G4, second half: the innermost enclosing Timeout scope is governed by one of the timeouts the class
+    is configured with (a scope built from an unrelated value bounds nothing)."""
+    fc = st.contract
+    names = getattr(fc, 'scope_timeouts', None) if fc is not None else None
+    stack = st.ghost.get('$timeout_stack') or []
+    if not names or not stack or stack[-1] is None:
+        return
+    sec = stack[-1]
+    alts = []
+    for nm in names:
+        v = E.eval_spec(st, nm, dict(st.old_locals or {}))
+        alts.append(st.coerce(v, sec.t).z == sec.z if v.t != sec.t else v.z == sec.z)
+    st.prove('call[%s]@%d/scope-governed' % (c.key, line), z3.Or(alts), kind='scope', lineno=line)
 
 
 CONTEXT_MANAGERS['Timeout'] = (_timeout_enter, _timeout_exit)
